@@ -157,25 +157,12 @@ func parityEven(fa *FA, c Cond, container string) (isParity, even bool) {
 	return false, false
 }
 
-func runC01(c *Ctx, w *World, r *Report) {
-	names := []string{"bitmap.IndexRank64", "bitmap.IndexRank128", "bitmap.Rank64", "bitmap.Rank128"}
-	fns, ok := requireFuncs(w, r, names...)
-	ReportMaskWord(w, r, names...)
-	ReportScale(w, r, names...)
-	ReportPair(w, r, names...)
-	ReportRound(w, r, names...)
-	ReportTableWidth(w, r)
-	reportFresh(w, r, "bitmap.IndexRank64", "bitmap.IndexRank128")
-	if !ok {
-		return
-	}
+// reportRankBuilders files R-EXCL and R-TRAIL for the listed rank-index builders and returns their strides.
+func reportRankBuilders(w *World, r *Report, fns map[string]*ssa.Function, builders ...string) map[string]int64 {
 	r.Rule("R-EXCL", "the value recorded as index entry k is the loop-carried count at the head of iteration k (exclusive prefix: ones before the block), initialised to 0 and updated by adding popcount(words[i+d]) for exactly the offsets 0..stride-1 of the block")
-	r.Rule("R-STRIDE", "writer/reader agreement: a builder that advances s words per entry (s = 1, 2) is read with index shift 6+log2(s)")
 	r.Rule("R-TRAIL", "IndexRank64: the index has len(words) entries, or len(words)+1 with the trailing option, the extra entry being stored at index len(words) and holding the final count; IndexRank128 appends the final count exactly when len(words) is even")
-	r.Rule("R-RANKWORD", "Rank64/Rank128: the word counted is words[i>>6] masked with the low (i&63) bits (bitmap.Mask), and the returned bit is that same word shifted by i&63 and masked with 1")
-
 	strideOf := map[string]int64{}
-	for _, bn := range []string{"bitmap.IndexRank64", "bitmap.IndexRank128"} {
+	for _, bn := range builders {
 		fn := fns[bn]
 		fa := w.FA(fn)
 		// entries written: Store to a fresh []int32 element, or append of one element
@@ -337,6 +324,27 @@ func runC01(c *Ctx, w *World, r *Report) {
 			r.Check(badP == "", "R-TRAIL", bn+"|even", w.Pos(fn.Pos()), badP, "final count appended exactly on the len(words)&1 == 0 edge")
 		}
 	}
+	return strideOf
+}
+
+func runC01(c *Ctx, w *World, r *Report) {
+	names := []string{"bitmap.IndexRank64", "bitmap.IndexRank128", "bitmap.Rank64", "bitmap.Rank128"}
+	fns, ok := requireFuncs(w, r, names...)
+	ReportMaskWord(w, r, names...)
+	ReportScale(w, r, names...)
+	ReportPair(w, r, names...)
+	ReportRound(w, r, names...)
+	ReportTableWidth(w, r)
+	reportFresh(w, r, "bitmap.IndexRank64", "bitmap.IndexRank128")
+	if !ok {
+		return
+	}
+	r.Rule("R-EXCL", "the value recorded as index entry k is the loop-carried count at the head of iteration k (exclusive prefix: ones before the block), initialised to 0 and updated by adding popcount(words[i+d]) for exactly the offsets 0..stride-1 of the block")
+	r.Rule("R-STRIDE", "writer/reader agreement: a builder that advances s words per entry (s = 1, 2) is read with index shift 6+log2(s)")
+	r.Rule("R-TRAIL", "IndexRank64: the index has len(words) entries, or len(words)+1 with the trailing option, the extra entry being stored at index len(words) and holding the final count; IndexRank128 appends the final count exactly when len(words) is even")
+	r.Rule("R-RANKWORD", "Rank64/Rank128: the word counted is words[i>>6] masked with the low (i&63) bits (bitmap.Mask), and the returned bit is that same word shifted by i&63 and masked with 1")
+
+	strideOf := reportRankBuilders(w, r, fns, "bitmap.IndexRank64", "bitmap.IndexRank128")
 	// R-STRIDE
 	for _, pr := range [][3]string{{"bitmap.IndexRank64", "bitmap.Rank64", "rindex"}, {"bitmap.IndexRank128", "bitmap.Rank128", "rindex"}} {
 		s, ok := strideOf[pr[0]]
